@@ -411,7 +411,7 @@ Section Sim.
   Proof.
     intros Hinv Hstep. pose proof Hinv as [Hall Hdest]. unfold step in Hstep.
     destruct (st_destroyed s) eqn:Hd; [discriminate|].
-    destruct a as [tcp env | sok cok | k newrw sent | k newrw sent | k | k | k | k | k failed | ].
+    destruct a as [tcp env | sok intr cok | k newrw sent | k newrw sent | k | k | k | k | k failed | ].
     - (* AOpen *)
       destruct (open_connection cfg (length (st_socks s)) tcp env) as [evs0 r] eqn:Eo.
       pose proof (open_run s tcp env evs0 r Hd Eo) as Hrun.
@@ -435,7 +435,9 @@ Section Sim.
       { split; cbn; [|discriminate]. apply Forall_app. split; auto. constructor; [|constructor].
         unfold sock_inv. cbn. repeat split; auto; try lia; try discriminate. }
       rewrite <- Hlen. destruct sok; cbn [negb].
-      + rewrite Hclosed. split; [|exact Hinv']. destruct cok; cbn [negb mon_run]; rewrite Hstart.
+      + rewrite Hclosed. split; [|exact Hinv']. cbn [mon_run]. rewrite Hstart.
+        erewrite mon_run_app by (apply run_fresh; [reflexivity|apply fresh_repeat]).
+        destruct cok; cbn [negb mon_run].
         * rewrite step_connect_last by reflexivity. cbn [ms_tcp ms_ntx ms_watch ms_stopped].
           rewrite step_gsn_last by reflexivity. rewrite step_close_last by (cbn; auto; discriminate). reflexivity.
         * assert (mon_step cfg (mkmon (l ++ [mkms false PFresh 0 0 false]) false) (EConnect (length l) false)
@@ -570,3 +572,502 @@ Section Sim.
     mon_run cfg mon_init tr = Accept (abs cfg s).
   Proof. intros acts s tr H. exact (proj1 (run_sim acts st_init s tr inv_init H)). Qed.
 End Sim.
+
+(* ------------------------------------------------------------------------------------ *)
+(* What acceptance by the monitor means for the trace itself                             *)
+(* ------------------------------------------------------------------------------------ *)
+Definition ev_fd (e : sevent) : option nat :=
+  match e with
+  | ESocket k _ | ESetsockopt k | EBind k | EConnect k _ | EGetsockname k | ESendto k | ERecvfrom k
+  | ETx k | EClose k | ESockState k _ => Some k
+  | ESocketFail | EDestroyed => None
+  end.
+
+Definition is_tx (k : nat) (e : sevent) : bool := match e with ETx k' => Nat.eqb k k' | _ => false end.
+Definition count_tx (k : nat) (tr : list sevent) : Z := Z.of_nat (length (filter (is_tx k) tr)).
+
+(* interest last announced for descriptor k in a trace (0: never / stopped) *)
+Fixpoint last_notif (k : nat) (tr : list sevent) (cur : Z) : Z :=
+  match tr with
+  | [] => cur
+  | ESockState k' f :: tr' => last_notif k tr' (if Nat.eqb k k' then f else cur)
+  | _ :: tr' => last_notif k tr' cur
+  end.
+
+Lemma nth_error_upd_other {A} (l : list A) k k' x : k <> k' -> nth_error (upd l k' x) k = nth_error l k.
+Proof.
+  revert k k'. induction l as [|h t IH]; intros k k' Hne; destruct k, k'; cbn; auto; try congruence.
+Qed.
+
+Lemma mon_run_app_inv cfg m t1 t2 m' : mon_run cfg m (t1 ++ t2) = Accept m' ->
+  exists m1, mon_run cfg m t1 = Accept m1 /\ mon_run cfg m1 t2 = Accept m'.
+Proof.
+  revert m. induction t1 as [|e t1 IH]; intros m H; cbn in *.
+  - eauto.
+  - destruct (mon_step cfg m e); [|discriminate]. apply IH. exact H.
+Qed.
+
+Lemma last_notif_app k t1 t2 cur : last_notif k (t1 ++ t2) cur = last_notif k t2 (last_notif k t1 cur).
+Proof. revert cur. induction t1 as [|e t1 IH]; intros cur; cbn; auto. destruct e; auto. Qed.
+
+Lemma count_tx_app k t1 t2 : count_tx k (t1 ++ t2) = count_tx k t1 + count_tx k t2.
+Proof. unfold count_tx. rewrite filter_app, app_length. lia. Qed.
+
+Section Meaning.
+  Variable cfg : mcfg.
+
+  (* the monitor state summarises the history *)
+  Definition hist_ok (m : mon) (h : list sevent) : Prop :=
+    (forall e k, In e h -> ev_fd e = Some k -> (k < length (mn_socks m))%nat) /\
+    (forall k s, nth_error (mn_socks m) k = Some s ->
+       (ms_phase s = PClosed -> In (EClose k) h) /\
+       ms_ntx s = count_tx k h /\
+       (ms_tcp s = false -> 0 < udp_max cfg -> ms_ntx s <= udp_max cfg) /\
+       ms_watch s = last_notif k h 0).
+
+  Lemma on_sock_accept m k f m' : on_sock m k f = Accept m' ->
+    exists s, nth_error (mn_socks m) k = Some s /\ f s = Accept m'.
+  Proof. unfold on_sock. destruct (nth_error (mn_socks m) k); [eauto|discriminate]. Qed.
+
+  Lemma hist_step m h e m' : hist_ok m h -> mon_step cfg m e = Accept m' -> hist_ok m' (h ++ [e]).
+  Proof.
+    intros [H1 H2] Hs. unfold mon_step in Hs. destruct (mn_destroyed m) eqn:Hd; [discriminate|].
+    (* events that leave the socket table unchanged, or change one entry *)
+    assert (Hsame : forall k s, ev_fd e = Some k -> mn_socks m' = mn_socks m ->
+              nth_error (mn_socks m) k = Some s ->
+              (forall k', is_tx k' e = false) -> (forall k' f, e <> ESockState k' f) -> (forall k', e <> EClose k') ->
+              hist_ok m' (h ++ [e])).
+    { intros k s Hfd Heq Hn Hnt Hns Hnc. split.
+      - intros e0 k0 Hin Hf0. rewrite Heq. apply in_app_or in Hin. destruct Hin as [Hin|[<-|[]]]; eauto.
+        rewrite Hfd in Hf0. injection Hf0 as <-. apply nth_error_Some. congruence.
+      - intros k0 s0 Hn0. rewrite Heq in Hn0. destruct (H2 k0 s0 Hn0) as (A & B & C & D). repeat split.
+        + intros Hp. apply in_or_app. left. auto.
+        + rewrite count_tx_app. unfold count_tx at 2. cbn [filter]. rewrite Hnt. cbn. lia.
+        + exact C.
+        + rewrite last_notif_app, <- D. destruct e; cbn; auto. exfalso. eapply Hns; eauto. }
+    destruct e as [k tcp| |k|k|k ok|k|k|k|k|k|k fl|].
+    - (* ESocket *)
+      destruct (Nat.eqb_spec k (length (mn_socks m))) as [->|]; [|discriminate]. injection Hs as <-. split; cbn [mn_socks].
+      + intros e0 k0 Hin Hf0. rewrite app_length. cbn. apply in_app_or in Hin. destruct Hin as [Hin|[<-|[]]].
+        * specialize (H1 _ _ Hin Hf0). lia.
+        * cbn in Hf0. injection Hf0 as <-. lia.
+      + intros k0 s0 Hn0.
+        destruct (Nat.lt_ge_cases k0 (length (mn_socks m))) as [Hlt|Hge].
+        * rewrite nth_error_app1 in Hn0 by exact Hlt. destruct (H2 k0 s0 Hn0) as (A & B & C & D). repeat split.
+          -- intros Hp. apply in_or_app. left. auto.
+          -- rewrite count_tx_app. unfold count_tx at 2. cbn. lia.
+          -- exact C.
+          -- rewrite last_notif_app, <- D. reflexivity.
+        * assert (k0 = length (mn_socks m)) as ->.
+          { assert (k0 < length (mn_socks m ++ [mkms tcp PFresh 0 0 false]))%nat by (apply nth_error_Some; congruence).
+            rewrite app_length in H. cbn in H. lia. }
+          rewrite nth_error_last in Hn0. injection Hn0 as <-. cbn.
+          assert (Hno : forall e0, In e0 h -> ev_fd e0 <> Some (length (mn_socks m))).
+          { intros e0 Hin Hf. specialize (H1 _ _ Hin Hf). lia. }
+          repeat split; try discriminate; try lia.
+          -- rewrite count_tx_app. unfold count_tx. cbn.
+             assert (filter (is_tx (length (mn_socks m))) h = []) as ->; [|reflexivity].
+             clear -Hno. induction h as [|e0 h IH]; cbn; auto.
+             destruct (is_tx (length (mn_socks m)) e0) eqn:E.
+             ++ exfalso. destruct e0; cbn in E; try discriminate. apply Nat.eqb_eq in E. subst.
+                eapply (Hno (ETx _)); [left; reflexivity|reflexivity].
+             ++ apply IH. intros e1 Hin. apply Hno. right. exact Hin.
+          -- rewrite last_notif_app. cbn.
+             clear -Hno. assert (forall cur, last_notif (length (mn_socks m)) h cur = cur) as ->; [|reflexivity].
+             induction h as [|e0 h IH]; intros cur; cbn; auto.
+             destruct e0; try (apply IH; intros e1 Hin; apply Hno; right; exact Hin).
+             destruct (Nat.eqb_spec (length (mn_socks m)) k).
+             ++ exfalso. subst. eapply (Hno (ESockState _ _)); [left; reflexivity|reflexivity].
+             ++ apply IH. intros e1 Hin. apply Hno. right. exact Hin.
+    - (* ESocketFail *)
+      injection Hs as <-. split.
+      + intros e0 k0 Hin Hf0. apply in_app_or in Hin. destruct Hin as [Hin|[<-|[]]]; eauto. discriminate.
+      + intros k0 s0 Hn0. destruct (H2 k0 s0 Hn0) as (A & B & C & D). repeat split; auto.
+        * intros Hp. apply in_or_app. left. auto.
+        * rewrite count_tx_app. unfold count_tx at 2. cbn. lia.
+        * rewrite last_notif_app, <- D. reflexivity.
+    - (* ESetsockopt *)
+      destruct (on_sock_accept _ _ _ _ Hs) as (s & Hn & Hf). destruct (ms_phase s) eqn:Hp; try discriminate. injection Hf as <-.
+      apply (Hsame k s); auto; discriminate.
+    - (* EBind *)
+      destruct (on_sock_accept _ _ _ _ Hs) as (s & Hn & Hf). destruct (ms_phase s) eqn:Hp; try discriminate. injection Hf as <-.
+      apply (Hsame k s); auto; discriminate.
+    - (* EConnect *)
+      destruct (on_sock_accept _ _ _ _ Hs) as (s & Hn & Hf). destruct (ms_phase s) eqn:Hp; try discriminate. injection Hf as <-.
+      destruct ok.
+      + split.
+        * intros e0 k0 Hin Hf0. cbn [set_sock mn_socks]. rewrite upd_length.
+          apply in_app_or in Hin. destruct Hin as [Hin|[<-|[]]]; eauto. cbn in Hf0. injection Hf0 as <-.
+          apply nth_error_Some. congruence.
+        * intros k0 s0 Hn0. cbn [set_sock mn_socks] in Hn0. destruct (Nat.eq_dec k0 k) as [->|Hne].
+          -- rewrite (nth_error_upd_same _ _ _ _ Hn) in Hn0. injection Hn0 as <-. cbn.
+             destruct (H2 k s Hn) as (A & B & C & D). repeat split; auto; try discriminate.
+             ++ rewrite count_tx_app. unfold count_tx at 2. cbn. lia.
+             ++ rewrite last_notif_app, <- D. reflexivity.
+          -- rewrite nth_error_upd_other in Hn0 by exact Hne. destruct (H2 k0 s0 Hn0) as (A & B & C & D). repeat split; auto.
+             ++ intros Hp0. apply in_or_app. left. auto.
+             ++ rewrite count_tx_app. unfold count_tx at 2. cbn. lia.
+             ++ rewrite last_notif_app, <- D. reflexivity.
+      + apply (Hsame k s); auto; discriminate.
+    - (* EGetsockname *)
+      destruct (on_sock_accept _ _ _ _ Hs) as (s & Hn & Hf). destruct (ms_phase s) eqn:Hp; try discriminate. injection Hf as <-.
+      apply (Hsame k s); auto; discriminate.
+    - (* ESendto *)
+      destruct (on_sock_accept _ _ _ _ Hs) as (s & Hn & Hf). destruct (ms_phase s) eqn:Hp; try discriminate. injection Hf as <-.
+      apply (Hsame k s); auto; discriminate.
+    - (* ERecvfrom *)
+      destruct (on_sock_accept _ _ _ _ Hs) as (s & Hn & Hf). destruct (ms_phase s) eqn:Hp; try discriminate.
+      destruct (has_cb cfg && (Z.land (ms_watch s) ARES_CONN_STATE_READ =? 0)); [discriminate|]. injection Hf as <-.
+      apply (Hsame k s); auto; discriminate.
+    - (* ETx *)
+      destruct (on_sock_accept _ _ _ _ Hs) as (s & Hn & Hf). destruct (ms_phase s) eqn:Hp; try discriminate.
+      destruct (negb (ms_tcp s) && (0 <? udp_max cfg) && (udp_max cfg <? ms_ntx s + 1)) eqn:Hlim; [discriminate|]. injection Hf as <-.
+      split.
+      + intros e0 k0 Hin Hf0. cbn [set_sock mn_socks]. rewrite upd_length.
+        apply in_app_or in Hin. destruct Hin as [Hin|[<-|[]]]; eauto. cbn in Hf0. injection Hf0 as <-.
+        apply nth_error_Some. congruence.
+      + intros k0 s0 Hn0. cbn [set_sock mn_socks] in Hn0. destruct (Nat.eq_dec k0 k) as [->|Hne].
+        * rewrite (nth_error_upd_same _ _ _ _ Hn) in Hn0. injection Hn0 as <-. cbn.
+          destruct (H2 k s Hn) as (A & B & C & D). repeat split; auto; try discriminate.
+          -- rewrite count_tx_app. unfold count_tx at 2. cbn. rewrite Nat.eqb_refl. cbn. lia.
+          -- intros Ht Hm. rewrite Ht in Hlim. cbn [negb andb] in Hlim.
+             destruct (Z.ltb_spec 0 (udp_max cfg)); [|lia]. cbn [andb] in Hlim. apply Z.ltb_ge in Hlim. lia.
+          -- rewrite last_notif_app, <- D. reflexivity.
+        * rewrite nth_error_upd_other in Hn0 by exact Hne. destruct (H2 k0 s0 Hn0) as (A & B & C & D). repeat split; auto.
+          -- intros Hp0. apply in_or_app. left. auto.
+          -- rewrite count_tx_app. unfold count_tx at 2. cbn.
+             destruct (Nat.eqb_spec k0 k); [congruence|]. cbn. lia.
+          -- rewrite last_notif_app, <- D. reflexivity.
+    - (* EClose *)
+      destruct (on_sock_accept _ _ _ _ Hs) as (s & Hn & Hf).
+      assert (Hw : ms_watch s = 0 /\ m' = set_sock m k (mkms (ms_tcp s) PClosed (ms_ntx s) 0 (ms_stopped s))).
+      { destruct (ms_phase s); try discriminate; destruct (Z.eqb_spec (ms_watch s) 0); try discriminate; injection Hf as <-; auto. }
+      destruct Hw as [Hw ->]. split.
+      + intros e0 k0 Hin Hf0. cbn [set_sock mn_socks]. rewrite upd_length.
+        apply in_app_or in Hin. destruct Hin as [Hin|[<-|[]]]; eauto. cbn in Hf0. injection Hf0 as <-.
+        apply nth_error_Some. congruence.
+      + intros k0 s0 Hn0. cbn [set_sock mn_socks] in Hn0. destruct (Nat.eq_dec k0 k) as [->|Hne].
+        * rewrite (nth_error_upd_same _ _ _ _ Hn) in Hn0. injection Hn0 as <-. cbn.
+          destruct (H2 k s Hn) as (A & B & C & D). repeat split; auto.
+          -- intros _. apply in_or_app. right. left. reflexivity.
+          -- rewrite count_tx_app. unfold count_tx at 2. cbn. lia.
+          -- rewrite last_notif_app, <- D. cbn. congruence.
+        * rewrite nth_error_upd_other in Hn0 by exact Hne. destruct (H2 k0 s0 Hn0) as (A & B & C & D). repeat split; auto.
+          -- intros Hp0. apply in_or_app. left. auto.
+          -- rewrite count_tx_app. unfold count_tx at 2. cbn. lia.
+          -- rewrite last_notif_app, <- D. reflexivity.
+    - (* ESockState *)
+      destruct (on_sock_accept _ _ _ _ Hs) as (s & Hn & Hf).
+      destruct (negb (has_cb cfg)); [discriminate|].
+      assert (Hw : m' = set_sock m k (mkms (ms_tcp s) (ms_phase s) (ms_ntx s) fl (fl =? 0)) /\ ms_phase s <> PClosed).
+      { destruct (ms_phase s); try discriminate; destruct (ms_stopped s); try discriminate;
+        destruct (fl =? ms_watch s); try discriminate; injection Hf as <-; split; auto; discriminate. }
+      destruct Hw as [-> Hpc]. split.
+      + intros e0 k0 Hin Hf0. cbn [set_sock mn_socks]. rewrite upd_length.
+        apply in_app_or in Hin. destruct Hin as [Hin|[<-|[]]]; eauto. cbn in Hf0. injection Hf0 as <-.
+        apply nth_error_Some. congruence.
+      + intros k0 s0 Hn0. cbn [set_sock mn_socks] in Hn0. destruct (Nat.eq_dec k0 k) as [->|Hne].
+        * rewrite (nth_error_upd_same _ _ _ _ Hn) in Hn0. injection Hn0 as <-. cbn.
+          destruct (H2 k s Hn) as (A & B & C & D). repeat split; auto.
+          -- intros Hp. congruence.
+          -- rewrite count_tx_app. unfold count_tx at 2. cbn. lia.
+          -- rewrite last_notif_app. cbn. rewrite Nat.eqb_refl. reflexivity.
+        * rewrite nth_error_upd_other in Hn0 by exact Hne. destruct (H2 k0 s0 Hn0) as (A & B & C & D). repeat split; auto.
+          -- intros Hp0. apply in_or_app. left. auto.
+          -- rewrite count_tx_app. unfold count_tx at 2. cbn. lia.
+          -- rewrite last_notif_app, <- D. cbn. destruct (Nat.eqb_spec k0 k); [congruence|reflexivity].
+    - (* EDestroyed *)
+      destruct (all_closed (mn_socks m)); [|discriminate]. injection Hs as <-. split; cbn [mn_socks].
+      + intros e0 k0 Hin Hf0. apply in_app_or in Hin. destruct Hin as [Hin|[<-|[]]]; eauto. discriminate.
+      + intros k0 s0 Hn0. destruct (H2 k0 s0 Hn0) as (A & B & C & D). repeat split; auto.
+        * intros Hp. apply in_or_app. left. auto.
+        * rewrite count_tx_app. unfold count_tx at 2. cbn. lia.
+        * rewrite last_notif_app, <- D. reflexivity.
+  Qed.
+
+  Lemma hist_run : forall tr m h m', hist_ok m h -> mon_run cfg m tr = Accept m' -> hist_ok m' (h ++ tr).
+  Proof.
+    induction tr as [|e tr IH]; intros m h m' Hh Hr; cbn in Hr.
+    - injection Hr as <-. rewrite app_nil_r. exact Hh.
+    - destruct (mon_step cfg m e) as [m1|] eqn:Es; [|discriminate].
+      replace (h ++ e :: tr) with ((h ++ [e]) ++ tr) by (rewrite <- app_assoc; reflexivity).
+      eapply IH; [|exact Hr]. eapply hist_step; eauto.
+  Qed.
+
+  Lemma hist_init : hist_ok mon_init [].
+  Proof. split; [intros e k []|]. intros k s Hn. destruct k; discriminate. Qed.
+
+  Lemma hist_accept tr m : mon_run cfg mon_init tr = Accept m -> hist_ok m tr.
+  Proof. intros H. exact (hist_run tr mon_init [] m hist_init H). Qed.
+
+  (* a closed descriptor stays closed and every further event on it is rejected; the same for
+     "stopped" and further notifications *)
+  Definition sticky (P : msock -> Prop) : Prop :=
+    forall m e m' k s, mon_step cfg m e = Accept m' -> nth_error (mn_socks m) k = Some s -> P s ->
+      ev_fd e <> Some k /\ exists s', nth_error (mn_socks m') k = Some s' /\ P s'.
+
+  Lemma other_kept m k k' x s : k' <> k -> nth_error (mn_socks m) k = Some s ->
+    nth_error (mn_socks (set_sock m k' x)) k = Some s.
+  Proof. intros Hne Hn. cbn. rewrite nth_error_upd_other; auto. Qed.
+
+  Lemma closed_sticky : sticky (fun s => ms_phase s = PClosed).
+  Proof.
+    intros m e m' k s Hs Hn Hp. unfold mon_step in Hs. destruct (mn_destroyed m); [discriminate|].
+    destruct e as [k' tcp| |k'|k'|k' ok|k'|k'|k'|k'|k'|k' fl|]; cbn [ev_fd].
+    - destruct (Nat.eqb_spec k' (length (mn_socks m))) as [->|]; [|discriminate]. injection Hs as <-. split.
+      + intros E. injection E as <-. assert (length (mn_socks m) < length (mn_socks m))%nat; [apply nth_error_Some; congruence|lia].
+      + exists s. split; auto. cbn. rewrite nth_error_app1; auto. apply nth_error_Some. congruence.
+    - injection Hs as <-. split; [discriminate|eauto].
+    - destruct (on_sock_accept _ _ _ _ Hs) as (s1 & Hn1 & Hf). split.
+      + intros E. injection E as <-. rewrite Hn in Hn1. injection Hn1 as <-. rewrite Hp in Hf. discriminate.
+      + destruct (ms_phase s1); try discriminate. injection Hf as <-. eauto.
+    - destruct (on_sock_accept _ _ _ _ Hs) as (s1 & Hn1 & Hf). split.
+      + intros E. injection E as <-. rewrite Hn in Hn1. injection Hn1 as <-. rewrite Hp in Hf. discriminate.
+      + destruct (ms_phase s1); try discriminate. injection Hf as <-. eauto.
+    - destruct (on_sock_accept _ _ _ _ Hs) as (s1 & Hn1 & Hf).
+      assert (Hne : k' <> k) by (intros ->; rewrite Hn in Hn1; injection Hn1 as <-; rewrite Hp in Hf; discriminate).
+      split; [congruence|]. destruct (ms_phase s1); try discriminate. injection Hf as <-.
+      destruct ok; [|eauto]. exists s. split; auto. apply other_kept; auto.
+    - destruct (on_sock_accept _ _ _ _ Hs) as (s1 & Hn1 & Hf). split.
+      + intros E. injection E as <-. rewrite Hn in Hn1. injection Hn1 as <-. rewrite Hp in Hf. discriminate.
+      + destruct (ms_phase s1); try discriminate. injection Hf as <-. eauto.
+    - destruct (on_sock_accept _ _ _ _ Hs) as (s1 & Hn1 & Hf). split.
+      + intros E. injection E as <-. rewrite Hn in Hn1. injection Hn1 as <-. rewrite Hp in Hf. discriminate.
+      + destruct (ms_phase s1); try discriminate. injection Hf as <-. eauto.
+    - destruct (on_sock_accept _ _ _ _ Hs) as (s1 & Hn1 & Hf). split.
+      + intros E. injection E as <-. rewrite Hn in Hn1. injection Hn1 as <-. rewrite Hp in Hf. discriminate.
+      + destruct (ms_phase s1); try discriminate. destruct (has_cb cfg && _); try discriminate. injection Hf as <-. eauto.
+    - destruct (on_sock_accept _ _ _ _ Hs) as (s1 & Hn1 & Hf).
+      assert (Hne : k' <> k) by (intros ->; rewrite Hn in Hn1; injection Hn1 as <-; rewrite Hp in Hf; discriminate).
+      split; [congruence|]. destruct (ms_phase s1); try discriminate. destruct (negb (ms_tcp s1) && _ && _); try discriminate.
+      injection Hf as <-. exists s. split; auto. apply other_kept; auto.
+    - destruct (on_sock_accept _ _ _ _ Hs) as (s1 & Hn1 & Hf).
+      assert (Hne : k' <> k) by (intros ->; rewrite Hn in Hn1; injection Hn1 as <-; rewrite Hp in Hf; discriminate).
+      split; [congruence|]. exists s. split; auto.
+      destruct (ms_phase s1); try discriminate; destruct (ms_watch s1 =? 0); try discriminate; injection Hf as <-; apply other_kept; auto.
+    - destruct (on_sock_accept _ _ _ _ Hs) as (s1 & Hn1 & Hf). destruct (negb (has_cb cfg)); [discriminate|].
+      assert (Hne : k' <> k) by (intros ->; rewrite Hn in Hn1; injection Hn1 as <-; rewrite Hp in Hf; discriminate).
+      split; [congruence|]. exists s. split; auto.
+      destruct (ms_phase s1); try discriminate; destruct (ms_stopped s1); try discriminate;
+        destruct (fl =? ms_watch s1); try discriminate; injection Hf as <-; apply other_kept; auto.
+    - destruct (all_closed (mn_socks m)); [|discriminate]. injection Hs as <-. split; [discriminate|eauto].
+  Qed.
+
+  Lemma sticky_run P : sticky P -> forall tr m m' k s, mon_run cfg m tr = Accept m' ->
+    nth_error (mn_socks m) k = Some s -> P s -> Forall (fun e => ev_fd e <> Some k) tr.
+  Proof.
+    intros HP. induction tr as [|e tr IH]; intros m m' k s Hr Hn Hs; [constructor|].
+    cbn in Hr. destruct (mon_step cfg m e) as [m1|] eqn:Es; [|discriminate].
+    destruct (HP m e m1 k s Es Hn Hs) as (Hne & s' & Hn' & Hs'). constructor; [exact Hne|]. eapply IH; eauto.
+  Qed.
+
+  (* C10_no_use_after_close (and: closed at most once, no notification after the close) *)
+  Theorem no_use_after_close : forall t1 k t2 m,
+    mon_run cfg mon_init (t1 ++ EClose k :: t2) = Accept m -> Forall (fun e => ev_fd e <> Some k) t2.
+  Proof.
+    intros t1 k t2 m H. destruct (mon_run_app_inv _ _ _ _ _ H) as (m1 & H1 & H2). cbn in H2.
+    destruct (mon_step cfg m1 (EClose k)) as [m2|] eqn:Es; [|discriminate].
+    assert (exists s, nth_error (mn_socks m2) k = Some s /\ ms_phase s = PClosed) as (s & Hn & Hp).
+    { unfold mon_step in Es. destruct (mn_destroyed m1); [discriminate|].
+      destruct (on_sock_accept _ _ _ _ Es) as (s1 & Hn1 & Hf).
+      destruct (ms_phase s1); try discriminate; destruct (ms_watch s1 =? 0); try discriminate; injection Hf as <-;
+        eexists; (split; [cbn; eapply nth_error_upd_same; eauto | reflexivity]). }
+    eapply (sticky_run _ closed_sticky); eauto.
+  Qed.
+
+  (* C10_closed_exactly_once, first half: never twice *)
+  Theorem closed_at_most_once : forall t1 k t2 m,
+    mon_run cfg mon_init (t1 ++ EClose k :: t2) = Accept m -> ~ In (EClose k) t2.
+  Proof.
+    intros t1 k t2 m H Hin. pose proof (no_use_after_close _ _ _ _ H) as Hf.
+    rewrite Forall_forall in Hf. apply (Hf _ Hin). reflexivity.
+  Qed.
+
+  Lemma all_closed_nth l k s : all_closed l = true -> nth_error l k = Some s -> ms_phase s = PClosed.
+  Proof.
+    unfold all_closed. intros H Hn. rewrite forallb_forall in H. specialize (H s (nth_error_In _ _ Hn)).
+    destruct (ms_phase s); cbn in H; try discriminate; reflexivity.
+  Qed.
+
+  (* C10_none_after_destroy (with the second half of "closed exactly once"): when ares_destroy
+     returns, every descriptor ever obtained has been closed, and nothing happens afterwards *)
+  Theorem none_after_destroy : forall t1 t2 m,
+    mon_run cfg mon_init (t1 ++ EDestroyed :: t2) = Accept m ->
+    t2 = [] /\ forall k tcp, In (ESocket k tcp) t1 -> In (EClose k) t1.
+  Proof.
+    intros t1 t2 m H. destruct (mon_run_app_inv _ _ _ _ _ H) as (m1 & H1 & H2). cbn in H2.
+    destruct (mon_step cfg m1 EDestroyed) as [m2|] eqn:Es; [|discriminate].
+    unfold mon_step in Es. destruct (mn_destroyed m1); [discriminate|].
+    destruct (all_closed (mn_socks m1)) eqn:Hac; [|discriminate]. injection Es as <-.
+    split.
+    - destruct t2 as [|e t2]; [reflexivity|]. cbn in H2. discriminate.
+    - intros k tcp Hin. destruct (hist_accept _ _ H1) as [B1 B2].
+      pose proof (B1 _ k Hin eq_refl) as Hlt. apply nth_error_Some in Hlt.
+      destruct (nth_error (mn_socks m1) k) as [s|] eqn:Hn; [|congruence].
+      destruct (B2 k s Hn) as (A & _). apply A. eapply all_closed_nth; eauto.
+  Qed.
+
+  (* C10_udp_limit *)
+  Theorem udp_limit : forall tr m k s, mon_run cfg mon_init tr = Accept m ->
+    nth_error (mn_socks m) k = Some s -> ms_tcp s = false -> 0 < udp_max cfg ->
+    count_tx k tr <= udp_max cfg.
+  Proof.
+    intros tr m k s H Hn Ht Hm. destruct (hist_accept _ _ H) as [_ B2].
+    destruct (B2 k s Hn) as (_ & B & C & _). rewrite <- B. auto.
+  Qed.
+
+  (* C10_notify_paired *)
+  Theorem notify_on_change : forall t1 k f m,
+    mon_run cfg mon_init (t1 ++ [ESockState k f]) = Accept m -> f <> last_notif k t1 0.
+  Proof.
+    intros t1 k f m H. destruct (mon_run_app_inv _ _ _ _ _ H) as (m1 & H1 & H2). cbn in H2.
+    destruct (mon_step cfg m1 (ESockState k f)) as [m2|] eqn:Es; [|discriminate].
+    unfold mon_step in Es. destruct (mn_destroyed m1); [discriminate|].
+    destruct (on_sock_accept _ _ _ _ Es) as (s & Hn & Hf). destruct (hist_accept _ _ H1) as [_ B2].
+    destruct (B2 k s Hn) as (_ & _ & _ & D). rewrite <- D.
+    destruct (negb (has_cb cfg)); [discriminate|].
+    destruct (ms_phase s); try discriminate; destruct (ms_stopped s); try discriminate;
+      destruct (Z.eqb_spec f (ms_watch s)); try discriminate; auto.
+  Qed.
+
+  Theorem stop_before_close : forall t1 k m,
+    mon_run cfg mon_init (t1 ++ [EClose k]) = Accept m -> last_notif k t1 0 = 0.
+  Proof.
+    intros t1 k m H. destruct (mon_run_app_inv _ _ _ _ _ H) as (m1 & H1 & H2). cbn in H2.
+    destruct (mon_step cfg m1 (EClose k)) as [m2|] eqn:Es; [|discriminate].
+    unfold mon_step in Es. destruct (mn_destroyed m1); [discriminate|].
+    destruct (on_sock_accept _ _ _ _ Es) as (s & Hn & Hf). destruct (hist_accept _ _ H1) as [_ B2].
+    destruct (B2 k s Hn) as (_ & _ & _ & D). rewrite <- D.
+    destruct (ms_phase s); try discriminate; destruct (Z.eqb_spec (ms_watch s) 0); try discriminate; auto.
+  Qed.
+
+  Theorem watched_before_read : forall t1 k m, has_cb cfg = true ->
+    mon_run cfg mon_init (t1 ++ [ERecvfrom k]) = Accept m ->
+    Z.land (last_notif k t1 0) ARES_CONN_STATE_READ <> 0.
+  Proof.
+    intros t1 k m Hcb H. destruct (mon_run_app_inv _ _ _ _ _ H) as (m1 & H1 & H2). cbn in H2.
+    destruct (mon_step cfg m1 (ERecvfrom k)) as [m2|] eqn:Es; [|discriminate].
+    unfold mon_step in Es. destruct (mn_destroyed m1); [discriminate|].
+    destruct (on_sock_accept _ _ _ _ Es) as (s & Hn & Hf). destruct (hist_accept _ _ H1) as [_ B2].
+    destruct (B2 k s Hn) as (_ & _ & _ & D). rewrite <- D. rewrite Hcb in Hf. cbn [andb] in Hf.
+    destruct (ms_phase s); try discriminate.
+    destruct (Z.eqb_spec (Z.land (ms_watch s) ARES_CONN_STATE_READ) 0); try discriminate; auto.
+  Qed.
+
+  Lemma stopped_step m e m' k s : mon_step cfg m e = Accept m' ->
+    nth_error (mn_socks m) k = Some s -> ms_stopped s = true ->
+    (forall f, e <> ESockState k f) /\ exists s', nth_error (mn_socks m') k = Some s' /\ ms_stopped s' = true.
+  Proof.
+    intros Hs Hn Hp. unfold mon_step in Hs. destruct (mn_destroyed m); [discriminate|].
+    assert (Hupd : forall x, ms_stopped x = true ->
+              exists s', nth_error (mn_socks (set_sock m k x)) k = Some s' /\ ms_stopped s' = true).
+    { intros x Hx. exists x. split; auto. cbn. eapply nth_error_upd_same; eauto. }
+    destruct e as [k' tcp| |k'|k'|k' ok|k'|k'|k'|k'|k'|k' fl|].
+    - destruct (Nat.eqb_spec k' (length (mn_socks m))) as [->|]; [|discriminate]. injection Hs as <-. split; [discriminate|].
+      exists s. split; auto. cbn. rewrite nth_error_app1; auto. apply nth_error_Some. congruence.
+    - injection Hs as <-. split; [discriminate|eauto].
+    - destruct (on_sock_accept _ _ _ _ Hs) as (s1 & Hn1 & Hf). split; [discriminate|].
+      destruct (ms_phase s1); try discriminate. injection Hf as <-. eauto.
+    - destruct (on_sock_accept _ _ _ _ Hs) as (s1 & Hn1 & Hf). split; [discriminate|].
+      destruct (ms_phase s1); try discriminate. injection Hf as <-. eauto.
+    - destruct (on_sock_accept _ _ _ _ Hs) as (s1 & Hn1 & Hf). split; [discriminate|].
+      destruct (ms_phase s1); try discriminate. injection Hf as <-. destruct ok; [|eauto].
+      destruct (Nat.eq_dec k' k) as [->|Hne].
+      + rewrite Hn in Hn1. injection Hn1 as <-. apply Hupd. exact Hp.
+      + exists s. split; auto. apply other_kept; auto.
+    - destruct (on_sock_accept _ _ _ _ Hs) as (s1 & Hn1 & Hf). split; [discriminate|].
+      destruct (ms_phase s1); try discriminate. injection Hf as <-. eauto.
+    - destruct (on_sock_accept _ _ _ _ Hs) as (s1 & Hn1 & Hf). split; [discriminate|].
+      destruct (ms_phase s1); try discriminate. injection Hf as <-. eauto.
+    - destruct (on_sock_accept _ _ _ _ Hs) as (s1 & Hn1 & Hf). split; [discriminate|].
+      destruct (ms_phase s1); try discriminate. destruct (has_cb cfg && _); try discriminate. injection Hf as <-. eauto.
+    - destruct (on_sock_accept _ _ _ _ Hs) as (s1 & Hn1 & Hf). split; [discriminate|].
+      destruct (ms_phase s1); try discriminate. destruct (negb (ms_tcp s1) && _ && _); try discriminate. injection Hf as <-.
+      destruct (Nat.eq_dec k' k) as [->|Hne].
+      + rewrite Hn in Hn1. injection Hn1 as <-. apply Hupd. exact Hp.
+      + exists s. split; auto. apply other_kept; auto.
+    - destruct (on_sock_accept _ _ _ _ Hs) as (s1 & Hn1 & Hf). split; [discriminate|].
+      destruct (Nat.eq_dec k' k) as [->|Hne].
+      + rewrite Hn in Hn1. injection Hn1 as <-.
+        destruct (ms_phase s); try discriminate; destruct (ms_watch s =? 0); try discriminate; injection Hf as <-; apply Hupd; exact Hp.
+      + exists s. split; auto.
+        destruct (ms_phase s1); try discriminate; destruct (ms_watch s1 =? 0); try discriminate; injection Hf as <-; apply other_kept; auto.
+    - destruct (on_sock_accept _ _ _ _ Hs) as (s1 & Hn1 & Hf). destruct (negb (has_cb cfg)); [discriminate|].
+      assert (Hne : k' <> k).
+      { intros ->. rewrite Hn in Hn1. injection Hn1 as <-. rewrite Hp in Hf. destruct (ms_phase s); discriminate. }
+      split; [intros f E; injection E as E1 E2; congruence|]. exists s. split; auto.
+      destruct (ms_phase s1); try discriminate; destruct (ms_stopped s1); try discriminate;
+        destruct (fl =? ms_watch s1); try discriminate; injection Hf as <-; apply other_kept; auto.
+    - destruct (all_closed (mn_socks m)); [|discriminate]. injection Hs as <-. split; [discriminate|eauto].
+  Qed.
+
+  (* the stop notification is final: told to stop exactly once *)
+  Theorem stop_is_final : forall t1 k t2 m,
+    mon_run cfg mon_init (t1 ++ ESockState k 0 :: t2) = Accept m -> Forall (fun e => forall f, e <> ESockState k f) t2.
+  Proof.
+    intros t1 k t2 m H. destruct (mon_run_app_inv _ _ _ _ _ H) as (m1 & H1 & H2). cbn in H2.
+    destruct (mon_step cfg m1 (ESockState k 0)) as [m2|] eqn:Es; [|discriminate].
+    assert (exists s, nth_error (mn_socks m2) k = Some s /\ ms_stopped s = true) as (s & Hn & Hp).
+    { unfold mon_step in Es. destruct (mn_destroyed m1); [discriminate|].
+      destruct (on_sock_accept _ _ _ _ Es) as (s1 & Hn1 & Hf). destruct (negb (has_cb cfg)); [discriminate|].
+      destruct (ms_phase s1); try discriminate; destruct (ms_stopped s1); try discriminate;
+        destruct (0 =? ms_watch s1); try discriminate; injection Hf as <-;
+        eexists; (split; [cbn; eapply nth_error_upd_same; eauto | reflexivity]). }
+    clear H H1 Es. revert m2 s Hn Hp H2. induction t2 as [|e t2 IH]; intros m2 s Hn Hp H2; [constructor|].
+    cbn in H2. destruct (mon_step cfg m2 e) as [m3|] eqn:Es; [|discriminate].
+    destruct (stopped_step _ _ _ _ _ Es Hn Hp) as (Hne & s' & Hn' & Hp'). constructor; [exact Hne|]. eapply IH; eauto.
+  Qed.
+End Meaning.
+
+(* ------------------------------------------------------------------------------------ *)
+(* ares_fds / ares_getsock                                                               *)
+(* ------------------------------------------------------------------------------------ *)
+Lemma fds_from_exact cfg : forall l i active,
+  Forall (sock_inv cfg) l -> quiescent l = true ->
+  fst (fds_from i l active) = open_set_from i (map (abs_sock cfg) l) active.
+Proof.
+  induction l as [|c t IH]; intros i active Hinv Hq; [reflexivity|].
+  inversion Hinv as [|? ? Hc Ht]; subst. cbn [quiescent forallb] in Hq. apply andb_prop in Hq. destruct Hq as [Hqc Hqt].
+  cbn [fds_from map open_set_from]. specialize (IH (S i) active Ht Hqt).
+  destruct (fds_from (S i) t active) as [r w]. cbn [fst] in *.
+  destruct Hc as (I1 & I2 & I3 & I4 & I5 & I6 & I7). cbn [abs_sock ms_phase ms_tcp].
+  destruct (cs_linked c) eqn:Hl.
+  - rewrite (I3 eq_refl). cbn [phase_eqb andb].
+    destruct (cs_tcp c || active); cbn [fst app]; rewrite IH; reflexivity.
+  - cbn [orb] in Hqc. destruct (cs_phase c); cbn in Hqc; try discriminate. cbn [phase_eqb andb fst app]. exact IH.
+Qed.
+
+(* C10_fds_exact: in a quiescent state (no connection half closed) the read set reported by
+   ares_fds / ares_getsock is exactly the set of descriptors that are open at the socket layer,
+   UDP ones only while queries are active. *)
+Theorem fds_exact cfg acts s tr active : run cfg st_init acts = Some (s, tr) -> quiescent (st_socks s) = true ->
+  fst (ares_fds_model s active) = mon_fds (abs cfg s) active /\
+  mon_run cfg mon_init tr = Accept (abs cfg s).
+Proof.
+  intros Hrun Hq. destruct (run_sim cfg acts st_init s tr (inv_init cfg) Hrun) as [Hacc [Hinv _]].
+  split; [|exact Hacc]. unfold ares_fds_model, mon_fds, abs. cbn [mn_socks]. apply fds_from_exact; auto.
+Qed.
+
+(* the write set is a subset of the read set and consists of the sockets with WRITE interest *)
+Lemma fds_write_subset : forall l i active k, In k (snd (fds_from i l active)) -> In k (fst (fds_from i l active)).
+Proof.
+  induction l as [|c t IH]; intros i active k Hin; [destruct Hin|].
+  cbn [fds_from] in *. specialize (IH (S i) active k). destruct (fds_from (S i) t active) as [r w]. cbn [fst snd] in *.
+  destruct (cs_linked c && (cs_tcp c || active)); cbn [fst snd] in *; auto.
+  destruct (Z.land (cs_rw c) ARES_CONN_STATE_WRITE =? 0); cbn [In] in *; auto. destruct Hin; auto.
+Qed.
+
+(* ------------------------------------------------------------------------------------ *)
+(* Non-vacuity                                                                           *)
+(* ------------------------------------------------------------------------------------ *)
+Definition ex_cfg : mcfg := mkcfg 2 true false true false false true.
+Definition ex_env_ok : open_env := mkoe true SrOk SrOk true false 1 CnOk true.
+Definition ex_env_bindfail : open_env := mkoe true SrNosys SrOk false false 0 CnOk true.
+Definition ex_acts : list action :=
+  [AOpen false ex_env_ok; AQuery 0 1 true; AQuery 0 1 false; AWriteEvent 0 1 true; AOpen false ex_env_bindfail;
+   AOpen false ex_env_ok; AQuery 2 1 true; AProbe true 1 true; AReadEvent 0; AAnswered 0; AAnswered 0;
+   ACleanup 0 false; AOpen true (mkoe true SrOk SrOk true true 0 CnInProgress false); AQuery 4 3 true;
+   AUnlink 2; AOpen false ex_env_ok; AFinishClose 2; ADestroy].
+Example ex_run : exists s tr, run ex_cfg st_init ex_acts = Some (s, tr) /\ (30 <= length tr)%nat /\
+  mon_run ex_cfg mon_init tr = Accept (abs ex_cfg s) /\ mn_destroyed (abs ex_cfg s) = true.
+Proof. eexists _, _. split; [vm_compute; reflexivity|]. split; [vm_compute; lia|]. split; vm_compute; reflexivity. Qed.
